@@ -98,22 +98,27 @@ def evictKey (cfg : MemCfg) (s : Mem) (t : Nat) (sh : List Entry) (vk : Nat) : O
   | some v => if admissibleVictim cfg t sh v then some { s with entries := del s.entries vk } else none
   | none => none
 
-/-- the eviction branch of `loadOrStore` for inserting key `k`. `hints`: observed victims, consumed in order.
-Without a hint the victim must be forced (no candidate → nothing is evicted, exactly one → that one).
+/-- choose the victim among the shard's entries `sh` at clock reading `t`. `hints`: observed victims, consumed in
+order. Without a hint the victim must be forced (no candidate → nothing is evicted, exactly one → that one).
 `none` = the observed victim is not an admissible choice. -/
+def evictChoose (cfg : MemCfg) (s : Mem) (t : Nat) (sh : List Entry) : List Nat → Option (Mem × List Nat)
+  | vk :: rest => (evictKey cfg s t sh vk).map (fun s' => (s', rest))
+  | [] =>
+    match sh.filter (admissibleVictim cfg t sh) with
+    | [] => some (s, [])
+    | [v] => (evictKey cfg s t sh v.key).map (fun s' => (s', []))
+    | _ => none
+
+/-- the eviction branch of `loadOrStore` for inserting key `k` -/
 def evict (cfg : MemCfg) (s : Mem) (k : Nat) (hints : List Nat) : Option (Mem × List Nat) :=
   let sh := shardEntries cfg s.entries k
   if sh.length < cfg.cap then some (s, hints)
+  else if cfg.protectLive then
+    -- the repaired code reads the clock once before scanning
+    evictChoose cfg (tick cfg s).1 (tick cfg s).2 sh hints
   else
-    -- the repaired code reads the clock once before scanning; the original code never does (no zero expiry in `locks`)
-    let (s, t) := if cfg.protectLive then tick cfg s else (s, s.now)
-    match hints with
-    | vk :: rest => (evictKey cfg s t sh vk).map (fun s' => (s', rest))
-    | [] =>
-      match sh.filter (admissibleVictim cfg t sh) with
-      | [] => some (s, [])
-      | [v] => (evictKey cfg s t sh v.key).map (fun s' => (s', []))
-      | _ => none
+    -- the original code never reads the clock here (no zero expiry in the lock map)
+    evictChoose cfg s s.now sh hints
 
 structure LockRes where
   s : Mem
